@@ -66,6 +66,10 @@ seq_t dtw_distance{{ suffix }}{{ suffix2 }}(seq_t *s1, idx_t l1,
         max_dist = ub_euclidean{{ suffix2 }}(s1, l1, s2, l2);
         {%- endif %}
         if (settings->only_ub) {
+            if (settings->max_length_diff != 0 && (l1 > l2 ? l1 - l2 : l2 - l1) > settings->max_length_diff) {
+                // The distance is infinite, and so is its upper bound
+                return INFINITY;
+            }
             return max_dist;
         }
         {%- if "euclidean" == inner_dist %}
